@@ -76,6 +76,22 @@ def run_r1(ctx, rule):
             return lo == ("un", "Neg", hi) and arg == v
 
         g = guards.holds(f, bb, is_contains)
+        if not g:
+            # the same range written as two comparisons: -limit <= v && v <= limit (possibly through a named flag)
+            ups, los = [], []
+            for s0, fa in guards.decision_facts(f, bb):
+                if fa[0] != "cmp":
+                    continue
+                op, a, b = fa[1], strip_bb(fa[2]), strip_bb(fa[3])
+                sv = strip_bb(v)
+                if (op == "Le" and a == sv) or (op == "Ge" and b == sv):
+                    ups.append((s0, b if op == "Le" else a))
+                if (op == "Le" and b == sv) or (op == "Ge" and a == sv):
+                    los.append((s0, a if op == "Le" else b))
+            for s1, hi in ups:
+                for s2, lo in los:
+                    if lo == ("un", "Neg", hi):
+                        g = (s1, ("cmp", "Le", v, hi))
         if v[0] == "l" and v[1] in sy.multi:
             # the converted variable is assigned in several places (a loop variable): every assignment must pass a range
             # test of that variable before it can reach the conversion
@@ -597,6 +613,35 @@ def run_r10(ctx, rule):
     if n < 2:
         rule.bad("justice/sites", "fewer than 2 justice distribution sites found (ascii and binary counted)", kind="anchor-missing")
 
+# ---- R11 ------------------------------------------------------------------------------------------
+def run_r11(ctx, rule):
+    """The declared variable count becomes the literal limit (`lit_limit = header.var_count as isize`), so it must itself
+    be capped at what the literal type can hold: in all three DIMACS header parsers the `var_count` of the header
+    comes from `token::var_count::<L>` (which rejects counts above `L::MAX_DIMACS`), not from a plain count token."""
+    facts = ctx.facts
+    n = 0
+    for mod in ("cnf", "wcnf", "gcnf"):
+        found = False
+        for i, f in sorted(facts.fns.items()):
+            nid = norm(i)
+            if f.crate != "flussab_cnf" or not nid.startswith("flussab_cnf::%s::Parser::parse_header" % mod):
+                continue
+            sy = sym(f)
+            for bi, b in enumerate(f.blocks):
+                for st in b["stmts"]:
+                    if st["k"] == "assign" and st["rv"]["k"] == "agg" and (st["rv"].get("adt") or "").endswith("%s::Header" % mod):
+                        adt = facts.adts.get(st["rv"]["adt"])
+                        names = [fl["name"] for fl in adt["variants"][0]["fields"]] if adt else []
+                        if "var_count" not in names:
+                            continue
+                        found = True
+                        n += 1
+                        e = sy.operand(st["rv"]["ops"][names.index("var_count")])
+                        srcs = sorted(set(norm(x[2]).rsplit("::", 1)[-1] for x in subexprs(e) if x[0] == "call" and "::token::" in norm(x[2])))
+                        rule.check(srcs == ["var_count"], "%s/header/var_count-token" % mod, "%s: the header's variable count is parsed by token::var_count::<L>, which caps it at the literal type's maximum (parsed by: %s)" % (mod, srcs), f.loc(bi))
+        if not found:
+            rule.bad("%s/header/aggregate" % mod, "anchor missing: the Header value built in %s::Parser::parse_header" % mod, kind="anchor-missing")
+
 
 def run(ctx):
     r1 = ctx.rule("C06-R1", "range check before the lossy conversion; from_code only on checked codes; lossy casts listed with their bound", floor=27)
@@ -609,6 +654,8 @@ def run(ctx):
     run_r4(ctx, r4)
     r5 = ctx.rule("C06-R5", "AIGER section counters start from the matching header count and end the section at zero", floor=30)
     run_r5(ctx, r5)
+    r11 = ctx.rule("C06-R11", "the declared variable count is capped at the literal type's maximum in all three DIMACS header parsers", floor=3)
+    run_r11(ctx, r11)
     r10 = ctx.rule("C06-R10", "justice literals are filed under a property only while it holds fewer than its declared number (test of the current index dominates the push)", floor=2)
     run_r10(ctx, r10)
     r6 = ctx.rule("C06-R6", "binary delta <= reference code; varint overflow is rejected", floor=2)
